@@ -57,11 +57,19 @@ Print Assumptions C17_addr.
 (* the builtin shortcut (struct fields, slice/array elements, map keys/values, top-level values of
    a builtin type: numbers, string, []byte, time.Time, Raw) is taken on both sides or on neither,
    in every position, for every type the encoder treats as builtin: the lists translated from
-   encode.base.go and decode.base.go agree.  In particular time.Time under TimeNotBuiltin. *)
+   encode.base.go and decode.base.go agree, and so do the two time cases about TimeNotBuiltin. *)
 Theorem C17_builtin_positions : forall (t : string) (q : position) (f : flags),
   is_enc_builtin t = true -> enc_mech_at q (is_enc_builtin t) f = dec_mech_at q (is_dec_builtin t) f.
 Proof. exact builtin_types_lemma. Qed.
 Print Assumptions C17_builtin_positions.
+
+(* since the repair of F17-2: with TimeNotBuiltin a time.Time is coded by what the guard chain
+   chooses in EVERY position, on both sides (the builtin shortcut is not taken) *)
+Theorem C17_time_not_builtin : forall (q : position) (b : bool) (f : flags),
+  isTime f = true -> timeBuiltin f = false ->
+  enc_mech_at q b f = fst (enc_choice f) /\ dec_mech_at q b f = fst (dec_choice f).
+Proof. exact time_not_builtin_lemma. Qed.
+Print Assumptions C17_time_not_builtin.
 
 Theorem C17_time_is_builtin : is_enc_builtin "time.Time" = true /\ is_dec_builtin "time.Time" = true.
 Proof. exact time_is_builtin_lemma. Qed.
